@@ -3,6 +3,7 @@ From Coq Require Import List NArith Bool Arith.
 Import ListNotations.
 Require Uniform.
 Require Import DemFlat DemSample.
+Require Gen_DemSampler GenProofs_DemSampler.
 
 (* a sampled shot (each fired error toggles each of its targets, separators ignored) has symptom x set exactly when x occurs
    an odd number of times among the targets of the errors that fired: XOR of the fired errors, duplicates cancel *)
@@ -31,3 +32,9 @@ Example C16_nonvacuous :
   shot_of errs (TD 0) = true /\ shot_of errs (TD 1) = false /\ shot_of errs (TD 2) = false /\ shot_of errs (TL 0) = true /\
   shot_of errs (TD 5) = false.
 Proof. vm_compute. repeat split. Qed.
+
+(* DemSampler<W>::resample regenerated from source: flattened error k uses error row k (advanced exactly once per error on every
+   path), randomised with its own probability unless replaying, XORed into exactly the rows its targets name. *)
+Theorem C16_resample_loop_is_the_model : GenProofs_DemSampler.demsampler_ok = true.
+Proof. exact GenProofs_DemSampler.resample_loop_is_the_model. Qed.
+Print Assumptions C16_resample_loop_is_the_model.
